@@ -51,7 +51,16 @@ def _try_decode(cls, st, data, e, fail, txt, what):
         if m2.encode(e) != b or n != len(b):
             fail('fixpoint', txt, data.hex(), '%s: decode(encode(m)) is not a fixpoint' % what)
     except Exception as ex:
-        fail('reencode', txt, data.hex(), '%s: decoded message does not encode/decode: %r' % (what, ex))
+        key = 'reencode'
+        try:
+            from specs import adapters as Ad
+            if not W.greedy_aligned(st, Ad.view(m, st)):
+                # the documented exception of the format (C02): a greedy tail that ends off the message alignment is
+                # followed by padding that cannot be told from elements -- recorded finding, reported under its own key
+                key = 'unaligned-greedy-tail:reencode'
+        except Exception:
+            pass
+        fail(key, txt, data.hex(), '%s: decoded message does not encode/decode: %r' % (what, ex))
 
 
 def run(prop, seed, tier):
